@@ -696,7 +696,40 @@ def check_fanout(ctx, case):
     ctx.note_case(True, ["fanout:composition"])
 
 
-CHECKS = {"fanout": check_fanout, "returned": check_returned_objects, "history": check_history, "fft": check_fft, "find_notes": check_find_notes, "args": check_args, "siblings": check_siblings, "copies": check_copies}
+def check_built_entries(ctx, case):
+    """entries that one builder call places on a track (from_chords, with or without a tuning, with repeated chord names) are
+    separately created containers: no container or note object sits in two entries, and editing one entry in place leaves
+    every other entry alone"""
+    from mingus.containers import Track
+    from mingus.extra import tunings
+    chordlist, dur, tuned, victim, edit = case
+    t = Track()
+    if tuned:
+        t.set_tuning(tunings.get_tuning("Guitar", "Standard", 6, 1))
+    if failed(ctx.ok("Track.from_chords", t.from_chords, chordlist, dur)):
+        return
+    entries = [e[2] for e in t.get_notes() if e[2] is not None]
+    seen = {}
+    for i, nc in enumerate(entries):
+        for o in [nc] + list(nc):
+            j = seen.setdefault(id(o), i)
+            ctx.check(j == i, "instances/entries-of-one-builder-call-share-objects",
+                      lambda: "from_chords(%r, %r)%s: entries %d and %d hold the same %s object" % (
+                          chordlist, dur, " with a tuning" if tuned else "", j, i, type(o).__name__))
+    if len(entries) >= 2:
+        v = entries[victim % len(entries)]
+        snap = [_observe(x) for x in entries]
+        edits = [lambda: v.augment(), lambda: v.transpose("3"), lambda: v[0].octave_up(), lambda: v.add_note("B-7"), lambda: v.remove_note(v[0])]
+        if not failed(ctx.ok("edit", edits[edit % len(edits)])):
+            for i, x in enumerate(entries):
+                if i != victim % len(entries):
+                    ctx.check(_observe(x) == snap[i], "instances/sibling-changed/entries-of-one-builder-call",
+                              lambda: "from_chords(%r, %r)%s: editing entry %d in place (edit %d) changed entry %d: %r -> %r" % (
+                                  chordlist, dur, " with a tuning" if tuned else "", victim % len(entries), edit % len(edits), i, snap[i], _observe(x)))
+    ctx.note_case(len(entries) >= 2, ["built-entries:" + ("tuned" if tuned else "plain")])
+
+
+CHECKS = {"built_entries": check_built_entries, "fanout": check_fanout, "returned": check_returned_objects, "history": check_history, "fft": check_fft, "find_notes": check_find_notes, "args": check_args, "siblings": check_siblings, "copies": check_copies}
 
 
 # ---- generators ----------------------------------------------------------------------------------------
@@ -781,6 +814,8 @@ def sub_instances(ctx, shard, n):
     ctx.given("copies", check_copies, cps, 400 if ctx.quick else 5000)
     ctx.enumerate("fanout", check_fanout, [[k, how, text, reps, victim, edit] for k in (2, 3) for how in ("add_note", "plus") for text in ("C", "F#-3")
                                            for reps in (1, 5) for victim in range(k) for edit in range(8)])
+    ctx.enumerate("built_entries", check_built_entries, [[ch, d, tuned, victim, edit] for ch in (["C", "G", "C"], ["Am", "Am"], ["C", None, "C", "F", "C"], [["E7", "E7"], "Am"])
+                                                         for d in (1, 2) for tuned in (False, True) for victim in (0, 1, 2) for edit in range(5)])
     ret = st.tuples(st.integers(0, 75), st.integers(0, 11), st.lists(st.integers(0, 40), min_size=1, max_size=5)).map(list)
     ctx.given("returned", check_returned_objects, ret, 150 if ctx.quick else 2000)
 
